@@ -626,7 +626,7 @@ func hostileFrame(rr *rng.R, v primitive.ProtocolVersion, stream int16) []byte {
 		return nil
 	}
 	setLen := func() { binary.BigEndian.PutUint32(b[5:9], uint32(len(b)-9)) }
-	small := []byte{0, 1, 0xff, 2, 0x7f, 0x80}
+	small := []byte{0, 1, 0xff, 0x80} // never a large positive top byte: lengths above 16 MiB are outside the property (the library allocates them up front)
 	switch rr.Intn(14) {
 	case 0, 1, 2: // unmodified
 	case 3: // header flags
